@@ -32,7 +32,10 @@ TRUSTED_BASE = [
     'rustc: the code Kani verifies (MIR of the scratch copy of /repo, add-only harness module) is the code that runs',
     'Verus side: std/alloc contracts in contracts/verus/prelude.rs (Peekable::peek/next and Iterator::next (vf_iter_next, R10) as a ghost sequence, sort_unstable, dedup, into_boxed_slice, ...) are ASSUMED',
     'Verus side: bodies of tinystr are not seen; every fact about TinyAsciiStr is a leaf contract that Kani proves on the real tinystr (assumed on the Verus side)',
-    "rustc #[derive] semantics for PartialEq/Eq/Ord/Hash/Default/Clone on the library's structs",
+    "rustc #[derive] semantics for PartialEq/Eq/Ord/Hash/Default/Clone on the library's structs (Verus side: PartialEqSpecImpl of the four subtag types states that the "
+    "derived == is structural; `Box<[P]> == Box<[P]>` is element-wise `P::eq` (axiom_box_slice_eq); Kani proves the derived ==/cmp of the subtag types and of "
+    "LanguageIdentifier on the compiled code)",
+    'Verus side: Option::map_or / map_or_else, Borrow::borrow and AsRef::as_ref as pure functions, BTreeMap iteration / keys() in strictly increasing key order (axiom_btree_iter_sorted, axiom_btree_keys_sorted)',
     'heap allocation never fails; machine integers are machine integers in both tools (overflow checked)',
     'Kani leaf harnesses quantify over every byte string of length <= 16 (N=16 symbolic buffer + symbolic length) and over-long inputs up to 64 bytes; longer inputs are assumed to behave like those (every leaf function checks the length before reading any byte)',
 ]
@@ -384,9 +387,9 @@ PROPS['C12']['verus'] = PROPS['C12']['verus'] + LOC_RT
 PROPS['C12']['verus'] = PROPS['C12']['verus'] + [V('langid', r'::vspec::lemma_(lid_ser_injective|lid_parse_ser|lid_roundtrip|strict_sorted_same_set|lid_expected_unique)$')]
 
 B_FEAT = B('features', 'differential run of one observation program (featdiff/: no feature-only API) built against the real crates with no optional feature, likelysubtags, '
-                       'serde and both: ~75 000 observations must be identical - parse / from_str / canonicalize of both crates on 12 languages x 5 scripts x 7 regions x 3 variant '
+                       'serde and both: ~76 000 observations must be identical - parse / from_str / canonicalize of both crates on 12 languages x 5 scripts x 7 regions x 3 variant '
                        'lists x 5 extension shapes (+ upper-case / underscore spellings) and on 3 700 raw strings of a boundary-class alphabet; matches (4 flag pairs), cmp, ==, hash '
-                       'equality and == &str on all pairs of a 250-identifier and a 190-locale pool; a 40-step mutator / getter / conversion script on 900 start values; '
+                       'equality and == &str on all pairs of a 360-identifier pool (a thinned 250 + the full product of 4 languages x 3 scripts x 3 regions x 3 variant lists) and a 230-locale pool; a 40-step mutator / getter / conversion script on 900 start values; '
                        'character_direction only for identifiers that carry a script')
 PROPS['C20']['bounded'] = [B_FEAT]
 B_DIRROWS = B('dirrows', 'closed obligation decided by EXECUTION of the real library (likely subtags on) on its whole finite domain: all 710 CLDR layout locales (rows re-derived from the '
